@@ -11,6 +11,7 @@ int vsa_end(void);                     /* stop controlling; returns exit status 
 void vsa_name_thread(ABT_thread t, const char *fmt, ...);
 void vsa_name_pool(ABT_pool p, const char *fmt, ...);
 void vsa_name_xstream(ABT_xstream x, const char *fmt, ...);
+void vsa_watch_waitlist(const void *obj, const ABTI_waitlist *wl); /* log `S .. Q <obj> head tail | node:next:prev:state ...` at every lock release of obj */
 extern uint64_t vsa_seed;
 extern const char *vsa_mode, *vsa_logpath;
 extern int vsa_argc;
